@@ -718,6 +718,7 @@ func unpackCorpus(arena string) []*UCase {
 	}
 	L := func(n, t string) UEntry { return UEntry{Name: n, Typ: tar.TypeSymlink, Link: t, Mode: 0777, Mtime: 1400000000} }
 	F := func(n, b string) UEntry { return UEntry{Name: n, Typ: tar.TypeReg, Body: b, Mode: 0644, Mtime: 1400000001} }
+	Fm := func(n, b string, m int64) UEntry { return UEntry{Name: n, Typ: tar.TypeReg, Body: b, Mode: m, Mtime: 1400000001} }
 	D := func(n string, m int64) UEntry { return UEntry{Name: n, Typ: tar.TypeDir, Mode: m, Mtime: 1400000002} }
 	return []*UCase{
 		mk(F("../dst-evil/x", "hi")),                         // F1 (fixed)
@@ -739,6 +740,13 @@ func unpackCorpus(arena string) []*UCase {
 		mk(D("d/", 0555), F("d/a", "x"), F("d/a", "y")),
 		mk(F("a", "1"), F("a", "2")),
 		mk(D("d/", 0700), F("d/e/f", "deep"), D("d/e/", 0750)),
+		// a link to a sibling whose name extends dst's, then an entry of the link's own name (seed C01-c)
+		mk(L("l", "../dst-evil/x"), F("l", "pwn")),
+		mk(L("l", "../dst-evil/new.txt"), F("l", "created")),
+		mk(L("l", "../dst-evil"), D("l/", 0700)),
+		// a read-only earlier version that is longer than the later one (seed C15-c; bites unprivileged)
+		mk(Fm("a", "first version of a, the long one", 0400), F("a", "v2")),
+		mk(D("d/", 0755), Fm("d/a", "first version of a, the long one", 0444), Fm("d/a", "v2", 0400), F("d/a", "3")),
 	}
 }
 
@@ -764,11 +772,10 @@ func init() {
 		var jobs []job
 		// arenas have fixed-length names so that absolute paths in cases are reproducible from the seed
 		mkArena := func(i int) string { return filepath.Join(work, fmt.Sprintf("u%06d", i)) }
-		for i, c := range unpackCorpus(mkArena(0)) {
-			_ = i
+		for _, c := range unpackCorpus(mkArena(0)) {
 			jobs = append(jobs, job{c: c})
 		}
-		for len(jobs) < cfg.N+19 {
+		for nCorpus := len(jobs); len(jobs) < cfg.N+nCorpus; {
 			jobs = append(jobs, job{})
 		}
 		for i := range jobs {
